@@ -362,10 +362,10 @@ def check(prop_id, tier):
     by_index = {r['index']: r for r in results}
     mismatches = [r['seed'] for r in again
                   if r.get('digest') != by_index[r['index']].get('digest')]
-    if mismatches:
-        print(f'HARNESS-ERROR property={prop_id} nondeterministic seeds={mismatches[:5]}',
-              flush=True)
-        return 2
+    # (a mismatch is reported after the verdicts: a change under test that keeps state for the
+    # whole process makes runs depend on what ran before them in their worker - that is a
+    # violation to be reported with its replay file, when there is one, and a harness error
+    # only when nothing else explains it)
 
     # verdicts
     counts = collections.Counter()
@@ -424,6 +424,14 @@ def check(prop_id, tier):
               f'expected={v.get("expected")} got={v.get("got")}', flush=True)
         print(f'VIOLATION property={prop_id} replay={path}', flush=True)
         exit_code = 1
+    if mismatches:
+        if exit_code == 0:
+            print(f'HARNESS-ERROR property={prop_id} nondeterministic seeds={mismatches[:5]}',
+                  flush=True)
+            return 2
+        print(f'[{prop_id}] note: {len(mismatches)} of {len(again)} re-executed runs gave another '
+              f'digest in another process (seeds {mismatches[:5]}): the tree under test keeps '
+              f'state between runs', flush=True)
 
     wall = time.time() - t0
     fault_counts = {k[6:]: v for k, v in counts.items() if k.startswith('fault:')}
@@ -448,7 +456,7 @@ def check(prop_id, tier):
             'simulated_steps': other,
             'faults_fired': fault_counts,
             'reach_probes': probe_counts,
-            'determinism_recheck': {'seeds_rerun': len(again), 'mismatches': 0},
+            'determinism_recheck': {'seeds_rerun': len(again), 'mismatches': len(mismatches)},
             'violating_runs': len(violating),
             'known_findings_seen': dict(known_seen),
             'components': prop.COMPONENTS,
